@@ -88,7 +88,8 @@ pub struct Case {
 }
 
 const DIRS: [&[u8]; 5] = [b"d1", b"sub", b"\xc3\xbcn\xc3\xaf", b"\xe9dir", b"dist-subdir"];
-const FILES: [&[u8]; 12] = [
+const FILES: [&[u8]; 15] = [
+    b"patch-Makefile.target", b"patch-src_util.tardy.c", b"patch-x.tar",
     b"foo-1.0.tar.gz", b"a", b"caf\xe9.tgz", b"\xc3\xa0.zip", b"patch-aa", b"patch-src_main.c", b"patch-local-x",
     b"patch-a.orig", b"emul-linux-patch-x", b"patch-2.7.6.tar.xz", b"x(1)=#.bin", b"patch-",
 ];
